@@ -905,6 +905,15 @@ func (eng *Engine) atomicallyWritesParam0(fn *ssa.Function, depth int) bool {
 					a = fa.X
 					continue
 				}
+				// (*uint64)(c): a pointer conversion names the same cell
+				if ct, ok := a.(*ssa.ChangeType); ok {
+					a = ct.X
+					continue
+				}
+				if cv, ok := a.(*ssa.Convert); ok {
+					a = cv.X
+					continue
+				}
 				break
 			}
 			if a == p0 && eng.atomicallyWritesParam0(c, depth+1) {
